@@ -338,6 +338,10 @@ func builtinStringSplit(call FunctionCall) Value {
 	if separatorValue.isRegExp() {
 		targetLength := len(target)
 		search := separatorValue.object().regExpValue().regularExpression
+		if targetLength == 0 && search.MatchString(target) {
+			// ECMA 262 15.5.4.14 step 11: the empty string split by a separator that matches it is [].
+			return objectValue(call.runtime.newArray(0))
+		}
 		valueArray := []Value{}
 		result := search.FindAllStringSubmatchIndex(target, -1)
 		lastIndex := 0
